@@ -29,7 +29,7 @@ type Op struct {
 	Sub       string     `json:"sub,omitempty"`
 	Variant   string     `json:"variant,omitempty"`
 	CrashDel  []int64    `json:"crash_delete,omitempty"` // reopen: the directory is replaced by its image taken inside a Delete of these offsets (after the rewrite, before the swap)
-	StopAfter int        `json:"stop_after,omitempty"` // multi variants: the backoff fails on its n-th call (0 = never)
+	StopAfter int        `json:"stop_after,omitempty"`   // multi variants: the backoff fails on its n-th call (0 = never)
 	Msgs      []PubMsg   `json:"msgs,omitempty"`
 	Offsets   []int64    `json:"offsets,omitempty"`
 	N         int64      `json:"n,omitempty"`
